@@ -6,6 +6,7 @@ odml/tools/converters/version_converter.py and of the strict XML reader's view o
 Helper lemmas: `OdmlModel/Proofs/Conv.lean`.
 -/
 import OdmlModel.Model.Conv
+import OdmlModel.Model.ConvText
 import OdmlModel.Proofs.Conv
 import OdmlModel.Proofs.ConvWF
 import OdmlModel.Proofs.ConvAccept
@@ -776,5 +777,80 @@ example : LoadWF sampleDoc = true ∧ sampleDoc.attrs.length ≤ 1 := by decide
 theorem convert_accepted_needs_type :
     readerAccepts (convertTree "f".toList (.elem "odML" [] [] [.elem "section" [] [] [leaf "name" "s".toList]]))
       = false := by decide
+
+/-! ## The text entry point (StringIO input): the XML declaration is taken off, nothing else
+
+`VersionConverter._parse_xml` on a StringIO (`Model/ConvText.lean`, `dropDecl`).  The property
+quantifies over "x StringIO and file input": for a file lxml decodes the bytes with the encoding
+the declaration names; a StringIO holds text that is decoded already, so what the declaration
+names must not matter (seeded round 5, change A re-encoded the text and let lxml decode it with
+the declared encoding). -/
+
+theorem afterGt_decl (prev : Option Char) (a rest : List Char) (h : '>' ∉ a) :
+    afterGt prev (a ++ declClose ++ rest) = some (some '?', rest) := by
+  induction a generalizing prev with
+  | nil => simp [declClose, afterGt]
+  | cons c cs ih =>
+    have hc : c ≠ '>' := by intro e; apply h; simp [e]
+    have hcs : '>' ∉ cs := by intro e; apply h; simp [e]
+    have := ih (some c) hcs
+    simp only [List.append_assoc] at this
+    simp [afterGt, hc, this]
+
+/-- **StringIO input, declaration taken off.**  A text that starts with an XML declaration
+    `<?xml … ?>` (whatever it declares: version, any encoding name, standalone; the pseudo-attributes
+    of a declaration hold no `>`) reaches the parser as exactly the text behind the declaration. -/
+theorem stringio_decl_dropped (a rest : List Char) (h : '>' ∉ a) :
+    dropDecl (declOpen ++ a ++ declClose ++ rest) = rest := by
+  have hp : declOpen.isPrefixOf (declOpen ++ a ++ declClose ++ rest) = true := by
+    simp [List.append_assoc]
+  have hd : (declOpen ++ a ++ declClose ++ rest).drop declOpen.length = a ++ declClose ++ rest := by
+    simp [List.append_assoc]
+  simp only [dropDecl, hp, hd, if_true, afterGt_decl none a rest h]
+
+/-- **The encoding a StringIO text declares plays no role**: two texts that differ only in what
+    their declarations say are the same document for the converter. -/
+theorem stringio_declared_encoding_irrelevant (a b rest : List Char) (ha : '>' ∉ a) (hb : '>' ∉ b) :
+    dropDecl (declOpen ++ a ++ declClose ++ rest) = dropDecl (declOpen ++ b ++ declClose ++ rest) := by
+  rw [stringio_decl_dropped a rest ha, stringio_decl_dropped b rest hb]
+
+/-- A text without a declaration is handed to the parser as it is. -/
+theorem stringio_no_decl_unchanged (doc : List Char) (h : declOpen.isPrefixOf doc = false) :
+    dropDecl doc = doc := by
+  simp [dropDecl, h]
+
+theorem afterGt_suffix (prev : Option Char) (s : List Char) (q : Option Char) (rest : List Char)
+    (h : afterGt prev s = some (q, rest)) : ∃ p, s = p ++ rest := by
+  induction s generalizing prev with
+  | nil => simp [afterGt] at h
+  | cons c cs ih =>
+    by_cases hc : c = '>'
+    · simp [afterGt, hc] at h
+      exact ⟨[c], by simp [h.2]⟩
+    · simp [afterGt, hc] at h
+      obtain ⟨p, hp⟩ := ih _ h
+      exact ⟨c :: p, by simp [hp]⟩
+
+/-- Nothing but a prefix of the text is ever taken off (no character of the document behind the
+    declaration is lost or changed, whatever the text is). -/
+theorem stringio_only_prefix_removed (doc : List Char) : ∃ p, doc = p ++ dropDecl doc := by
+  unfold dropDecl
+  split
+  · split
+    · rename_i rest heq
+      obtain ⟨p, hp⟩ := afterGt_suffix _ _ _ _ heq
+      refine ⟨doc.take declOpen.length ++ p, ?_⟩
+      rw [List.append_assoc, ← hp, List.take_append_drop]
+    · exact ⟨[], rfl⟩
+  · exact ⟨[], rfl⟩
+
+/-- the first line of an odML 1.0 file saved as ISO-8859-1 -/
+theorem stringio_decl_witness :
+    dropDecl "<?xml version=\"1.0\" encoding=\"ISO-8859-1\"?>\n<odML version=\"1\"/>".toList
+      = "\n<odML version=\"1\"/>".toList ∧
+    dropDecl "<?xml version='1.0' encoding='UTF-16' standalone='yes'?><odML/>".toList = "<odML/>".toList ∧
+    dropDecl "<odML><?xml-stylesheet href=\"a\"?></odML>".toList = "<odML><?xml-stylesheet href=\"a\"?></odML>".toList ∧
+    dropDecl "<?xml-stylesheet href=\"a\"?><odML/>".toList = "<odML/>".toList ∧
+    dropDecl "<?xml><odML/>".toList = "<?xml><odML/>".toList := by decide
 
 end C15
